@@ -1363,10 +1363,37 @@ func bytePairStore(fn *ssa.Function) (hi, lo ssa.Value, blk *ssa.BasicBlock) {
 	})
 	for _, p := range byBase {
 		if p.hi != nil && p.lo != nil {
-			return p.hi, p.lo, p.blk
+			return blockLocalValue(p.hi), blockLocalValue(p.lo), p.blk
 		}
 	}
 	return nil, nil, nil
+}
+
+// blockLocalValue: a load of a cell that the same block stored into just before (no call in between) denotes the
+// stored value; two such loads of one cell are then the same value.
+func blockLocalValue(v ssa.Value) ssa.Value {
+	ld, ok := v.(*ssa.UnOp)
+	if !ok || ld.Op != token.MUL || ld.Block() == nil {
+		return v
+	}
+	instrs := ld.Block().Instrs
+	at := -1
+	for i, ins := range instrs {
+		if ins == ssa.Instruction(ld) {
+			at = i
+		}
+	}
+	for i := at - 1; i >= 0; i-- {
+		switch x := instrs[i].(type) {
+		case *ssa.Store:
+			if x.Addr == ld.X {
+				return x.Val
+			}
+		case ssa.CallInstruction:
+			return v
+		}
+	}
+	return v
 }
 
 // bytePairInto: the value V whose big-endian bytes the two stores base[0] = byte(V>>8), base[1] = byte(V) spell
@@ -1399,8 +1426,8 @@ func bytePairInto(fn *ssa.Function, base ssa.Value) (ssa.Value, *ssa.Store) {
 			lo, loStore = cv.X, st
 		}
 	})
-	if hi != nil && lo != nil && stripConv(hi) == stripConv(lo) {
-		return lo, loStore
+	if hi != nil && lo != nil && stripConv(blockLocalValue(hi)) == stripConv(blockLocalValue(lo)) {
+		return blockLocalValue(lo), loStore
 	}
 	return nil, nil
 }
